@@ -420,14 +420,17 @@ class MyPyAstVisitor:
         for lvalue in node.lvalues:
             if isinstance(parent, Class):
                 for assignment in self._parse_attributes(lvalue, node.unanalyzed_type, is_static=True):
-                    assignments.append(assignment)
+                    # "a = a = 1" defines one attribute
+                    if all(assignment.id != assignment_.id for assignment_ in assignments):
+                        assignments.append(assignment)
             elif isinstance(parent, Function) and parent.name == "__init__":
                 grand_parent = self.__declaration_stack[-2]
                 # If the grandparent is not a class we ignore the attributes
                 if isinstance(grand_parent, Class) and not isinstance(lvalue, mp_nodes.NameExpr):
                     # Ignore non instance attributes in __init__ classes
                     for assignment in self._parse_attributes(lvalue, node.unanalyzed_type, is_static=False):
-                        assignments.append(assignment)
+                        if all(assignment.id != assignment_.id for assignment_ in assignments):
+                            assignments.append(assignment)
 
             elif isinstance(parent, Enum):
                 # The names bound by the target; targets like "_lookup[key] = ..." bind none
@@ -781,6 +784,10 @@ class MyPyAstVisitor:
                 attributes.extend(self._parse_attributes(lvalue_, unanalyzed_type, is_static))
 
         elif isinstance(lvalue, mp_nodes.NameExpr | mp_nodes.MemberExpr):
+            # "self.child.value = ..." assigns into an existing object and defines no attribute of this class
+            if isinstance(lvalue, mp_nodes.MemberExpr) and not isinstance(lvalue.expr, mp_nodes.NameExpr):
+                return attributes
+
             if self._is_attribute_already_defined(lvalue.name):
                 return attributes
 
